@@ -10,3 +10,9 @@ import TinsModel.Props.C06
 #print axioms Tins.Props.C06.delivered_is_prefix
 #print axioms Tins.Props.C06.each_byte_once
 #print axioms Tins.Props.C06.complete_prefix_delivered
+#print axioms Tins.Props.C06.process_payload_true_iff_grew
+#print axioms Tins.Props.C06.flow_callbacks
+#print axioms Tins.Props.C06.legacy_refines_spec
+#print axioms Tins.Props.C06.legacy_delivers_prefix
+#print axioms Tins.Props.C06.legacy_equiv
+#print axioms Tins.Props.C06.legacy_update_true_iff_grew
